@@ -232,6 +232,40 @@ ObjRefsFollowDecls(prog) ==
            (x.k \in {"qubit", "qalias"} /\ x.res.ok) =>
               LET v == ArgV(x, env, tab, EmptyFn) IN v.k = "q" /\ v.reg = x.res.reg /\ v.ix = x.res.ix
 
+\* ---------------------------------------------------------------- unit-time schedule (C19, Appendix B.6)
+\* every gate takes one time unit; the branches of a parallel block start together; a loop is an opaque
+\* item of one slot (it is kept as an item by the normalisation, so the slot is the same on both sides)
+RECURSIVE Dur(_)
+RECURSIVE DurSum(_)
+RECURSIVE DurMax(_)
+DurSum(ss) == IF ss = <<>> THEN 0 ELSE Dur(Head(ss)) + DurSum(Tail(ss))
+DurMax(ss) == IF ss = <<>> THEN 0 ELSE LET a == Dur(Head(ss)) b == DurMax(Tail(ss)) IN IF a > b THEN a ELSE b
+Dur(s) == CASE s.k = "gate" -> 1
+            [] s.k = "loop" -> 1
+            [] s.k = "blk" -> IF s.par THEN DurMax(s.body) ELSE DurSum(s.body)
+            [] OTHER -> 0
+RECURSIVE Sched(_, _)
+RECURSIVE SchedSeq(_, _)
+RECURSIVE SchedPar(_, _)
+SchedSeq(ss, t) == IF ss = <<>> THEN <<>> ELSE Sched(Head(ss), t) \o SchedSeq(Tail(ss), t + Dur(Head(ss)))
+SchedPar(ss, t) == IF ss = <<>> THEN <<>> ELSE Sched(Head(ss), t) \o SchedPar(Tail(ss), t)
+Sched(s, t) == CASE s.k = "gate" -> << <<s, t>> >>
+                 [] s.k = "loop" -> << <<s, t>> >>
+                 [] s.k = "blk" -> IF s.par THEN SchedPar(s.body, t) ELSE SchedSeq(s.body, t)
+                 [] OTHER -> <<>>
+BagOf(sq) == [x \in { sq[j] : j \in DOMAIN sq } |-> Cardinality({ j \in DOMAIN sq : sq[j] = x })]
+Schedule(prog) == BagOf(SchedSeq(prog.body, 0))
+\* a loop somewhere inside a parallel block
+RECURSIVE LoopInPar(_, _)
+LoopInPar(s, inpar) ==
+  CASE s.k = "loop" -> inpar \/ LoopInPar(s.body, inpar)
+    [] s.k = "blk" -> \E j \in DOMAIN s.body : LoopInPar(s.body[j], inpar \/ s.par)
+    [] OTHER -> FALSE
+\* normal form: gates, parallel groups of gates, loops
+FlatBody(prog) == \A j \in DOMAIN prog.body :
+  LET s == prog.body[j] IN
+  s.k \in {"gate", "loop"} \/ (s.k = "blk" /\ s.par /\ \A x \in DOMAIN s.body : s.body[x].k = "gate")
+
 \* ---------------------------------------------------------------- static validity (C14, Appendix B.7)
 \* the harness compresses a native table identical to the exact family into a one-element tag
 NativesOf(prog) == IF prog.natives # <<>> /\ prog.natives[1].cls = "tag" THEN ExactGates ELSE prog.natives
